@@ -1,4 +1,5 @@
 import ZmqVerif.Props.C07
+import ZmqVerif.Lemmas.WorldProxy
 /-!
 # C15 — proxy() forwards every message verbatim in both directions
 
@@ -114,5 +115,95 @@ theorem C15_chain (ident : Bytes) (p r : Msg) (hi : ident ≠ []) (hp : p ≠ []
 example : ((([Op.arriveFront [[1]], .arriveBack [[2]], .pickBack, .pickFront].foldl step {}).toBack,
             ([Op.arriveFront [[1]], .arriveBack [[2]], .pickBack, .pickFront].foldl step {}).toFront)
     = ([[[1]]], [[[2]]])) := by decide
+
+
+section World
+open Zmq.W
+
+
+/-! ### socket level: the proxy future of `Model.World` (the function the correspondence check ties to the real `proxy()`)
+
+`proxyPollT` (Lemmas/WorldProxy) is `proxyPoll` with a ghost trace: `took ff m` where `recv` on the frontend / backend
+returned `m`, `start sid m` where a `send` of `m` on socket `sid` is started, `finished` where the send in progress
+completes. -/
+
+/-- the traced function IS one poll of the proxy future (`pollAny`), with the trace forgotten -/
+theorem C15_world_trace_erases (w : World) (a b : Nat) (c : Option Nat) (ph : Nat) (ff : Bool) (m : Msg) (sub : FutSt) :
+    (proxyPollT 64 w a b c ph ff m sub).1 = pollAny w (.proxy a b c ph ff m sub) :=
+  proxyPollT_erase 64 w a b c ph ff m sub
+
+/-- **One poll, any world, any state of the future**: what the poll does is a word of the forwarding grammar
+(`accepts`): a message is taken only when nothing is in hand; what is started next is a send of THAT message — on the
+capture socket first if there is one — then a send of that message on the OTHER side; the next message is taken only
+after that send has completed.  The future returned carries the grammar's state. -/
+theorem C15_world_poll_grammar (w : World) (a b : Nat) (c : Option Nat) (ph : Nat) (ff : Bool) (m : Msg) (sub : FutSt) :
+    ∃ s', accepts a b c (pstOf ph ff m) (proxyPollT 64 w a b c ph ff m sub).2 = some s' ∧
+      Leaves a b c (proxyPollT 64 w a b c ph ff m sub).1.2.1 s' :=
+  proxyPollT_accepts 64 w a b c ph ff m sub
+
+/-- **Every history of polls of a proxy started idle** — each poll in an arbitrary world (whatever arrived, connected,
+failed or was called in between): everything `recv` returned on one side has been sent on, verbatim, once and in the
+order taken, on the OTHER side — except at most the one message whose copy is still being written to the capture
+socket; and the capture socket has been sent a copy of every message taken, in that order. -/
+theorem C15_world_verbatim (a b : Nat) (c : Option Nat) (ff : Bool) (m : Msg) (sub f' : FutSt) (tr : List PEv)
+    (h : ProxyRun a b c (.proxy a b c 0 ff m sub) tr f') :
+    ∃ s', accepts a b c .idle tr = some s' ∧
+      (tookOf tr).map (dest a b) = fwdOf c .idle tr ++ s'.hand.map (dest a b) ∧ s'.hand.length ≤ 1 ∧
+      capOf c .idle tr = (match (generalizing := false) c with
+                          | some k => (tookOf tr).map (fun x => (k, x.2))
+                          | none => []) := by
+  have hl : Leaves a b c (.proxy a b c 0 ff m sub) .idle := by
+    intro a' b' c' ph' ff' m' sub' he
+    injection he with h1 h2 h3 h4 h5 h6 h7
+    subst h1 h2 h3 h4 h5 h6
+    exact ⟨rfl, rfl, rfl, rfl⟩
+  obtain ⟨s', h1, _⟩ := h.accepts .idle hl ⟨_, _, _, _, rfl⟩
+  refine ⟨s', h1, ?_, ?_, accepts_capture a b c .idle tr s' h1⟩
+  · simpa [PSt.hand] using accepts_conservation a b c .idle tr s' h1
+  · cases s' <;> simp [PSt.hand]
+
+/-- in particular, per direction: the messages whose forwarding was started towards the backend are a prefix of the
+messages taken from the frontend (and symmetrically) — nothing invented, reordered or doubled; without a capture
+socket nothing taken is ever left unforwarded -/
+theorem C15_world_no_capture_all_forwarded (a b : Nat) (ff : Bool) (m : Msg) (sub f' : FutSt) (tr : List PEv)
+    (h : ProxyRun a b none (.proxy a b none 0 ff m sub) tr f') :
+    fwdOf none .idle tr = (tookOf tr).map (dest a b) := by
+  obtain ⟨s', h1, h2, _, _⟩ := C15_world_verbatim a b none ff m sub f' tr h
+  have : s'.hand = [] := by
+    -- without a capture socket the grammar never enters `cap`
+    clear h2
+    suffices hh : ∀ s tr s', accepts a b none s tr = some s' → (∀ f x, s ≠ .cap f x) → ∀ f x, s' ≠ .cap f x by
+      cases s' with
+      | cap f x => exact absurd rfl (hh _ _ _ h1 (by intro f x h; cases h) f x)
+      | _ => rfl
+    intro s tr
+    fun_induction accepts a b none s tr with
+    | case1 s => intro s' h hs; cases h; exact hs
+    | case2 ff m sid m' tr k hc => cases hc
+    | case3 ff m sid m' tr k hc => cases hc
+    | case4 ff m sid m' tr hc hk ih => intro s' h _; exact ih s' h (by intro f x h; cases h)
+    | case5 => intro s' h; cases h
+    | case6 ff m sid m' tr hk ih => intro s' h hs; exact absurd rfl (hs ff m)
+    | case7 => intro s' h; cases h
+    | case8 ff m tr ih => intro s' h _; exact ih s' h (by intro f x h; cases h)
+    | case9 => intro s' h; cases h
+  rw [h2, this]; simp
+
+/-- non-vacuity of the grammar: with a capture socket (3) a request taken from the frontend (1) is copied, then
+forwarded to the backend (2); the reply taken from the backend is copied and is being forwarded when the trace ends -/
+example :
+    accepts 1 2 (some 3) .idle
+      [.took true [[7]], .start 3 [[7]], .finished, .start 2 [[7]], .finished,
+       .took false [[8]], .start 3 [[8]], .finished, .start 1 [[8]]] = some (.fwd false [[8]]) ∧
+    fwdOf (some 3) .idle
+      [.took true [[7]], .start 3 [[7]], .finished, .start 2 [[7]], .finished,
+       .took false [[8]], .start 3 [[8]], .finished, .start 1 [[8]]] = [(2, [[7]]), (1, [[8]])] := by
+  decide
+
+/-- and a trace that forwards something else than it took is NOT a word of the grammar -/
+example : accepts 1 2 none .idle [.took true [[7]], .start 2 [[9]]] = none := by decide
+
+
+end World
 
 end Zmq.C15
